@@ -47,7 +47,7 @@ func init() {
 				}
 				return 150_000
 			}, Run: c20Converter,
-				Min: map[string]int64{"strings": 100000, "with_opacity": 20000, "opacity_register_reused": 5000, "circles": 20000, "circle_only_paths": 1000, "offsets_nonzero": 20000, "icons_with_six_distinct_opacities": 2000, "zero_radius_circles": 3000, "explicit_opacity_of_one": 5000}},
+				Min: map[string]int64{"strings": 100000, "with_opacity": 20000, "opacity_register_reused": 5000, "circles": 20000, "circle_only_paths": 1000, "offsets_nonzero": 20000, "icons_with_six_distinct_opacities": 2000, "zero_radius_circles": 3000, "explicit_opacity_of_one": 5000, "opacity_of_exactly_zero": 3000}},
 			{Name: "file", N: func(t string) uint64 {
 				if t == "thorough" {
 					return 3_000_000
@@ -411,7 +411,7 @@ func c20Converter(c *run.Ctx, idx uint64) {
 	adjs := map[float32]uint8{}
 	wantAdj := map[float32]uint8{}
 	// 0.5, 0.501 and 0.502 are distinct opacities that give the same 8-bit blend weight
-	opacities := []float32{0.3, 0.54, 0.87, 0.38, 0.26, 0.12, 0.9, 0.5, 0.501, 0.502, 0.2, 0.7, 0.6, float32(r.Intn(100)) / 100}
+	opacities := []float32{0.3, 0.54, 0.87, 0.38, 0.26, 0.12, 0.9, 0.5, 0.501, 0.502, 0.2, 0.7, 0.6, 0, float32(r.Intn(100)) / 100}
 	nPaths := r.Range(1, 5)
 	many := r.Chance(1, 4) // an icon with many paths and as many distinct opacities as there are registers for (six)
 	if many {
@@ -444,8 +444,13 @@ func c20Converter(c *run.Ctx, idx uint64) {
 					opacity = float32(used[r.Intn(len(used))])
 				}
 			}
-			if opacity == 0 || opacity == 1 {
+			if opacity == 1 {
 				opacity = 0.3
+			}
+			if opacity == 0 {
+				// an opacity of exactly 0 is an opacity like any other: its own
+				// register (blend weight 0), the path emitted, circles kept
+				c.Count("opacity_of_exactly_zero", 1)
 			}
 			if _, ok := wantAdj[opacity]; !ok && len(wantAdj) >= 6 {
 				opacity = 1
